@@ -226,8 +226,35 @@ pub fn io_recv<T: Flat + Walk + ?Sized>(stream: &[u8], max: usize, script: &[Ev]
     let st = Rc::new(RefCell::new(RState { script: script.iter().cloned().collect(), data: stream.to_vec(), ..Default::default() }));
     let mut rx = Receiver::<T, _>::io(ScriptRead(st.clone()), max);
     let mut outs = vec![];
+    let mut retained = false;
     for _ in 0..nrecv {
         let one = guarded(|| {
+            if !retained {
+                // once per case: `retain()` the first guard instead of dropping it; the same message must come again, at once
+                retained = true;
+                let before = st.borrow().calls;
+                let first = match rx.recv() {
+                    Ok(g) => {
+                        let f = (g.size(), walk_str(&*g, false));
+                        g.retain();
+                        Ok(f)
+                    }
+                    Err(e) => Err(e),
+                };
+                match first {
+                    Ok(first) => {
+                        let mid = st.borrow().calls;
+                        let again = rx.recv().map(|g| (g.size(), walk_str(&*g, false)));
+                        let after = st.borrow().calls;
+                        return match again {
+                            Ok(x) if x == first && after == mid => recv_out(Ok(x)),
+                            other => format!("RETAIN-DIFF:{}:{}:{}:{}", before, mid, after, recv_out(other)),
+                        };
+                        // the second guard is dropped here: `skip(size())`
+                    }
+                    Err(e) => return recv_out(Err(e)),
+                }
+            }
             let r = rx.recv().map(|g| (g.size(), walk_str(&*g, false)));
             recv_out(r)
             // the guard is dropped here: `skip(size())`
